@@ -69,7 +69,25 @@ class KeypointsCase(Case):
     n = cfg['n']
     bad = {}
     total = 0
-    for values in itertools.product(range(cfg['vmax'] + 1), repeat=n):
+    if cfg.get('skewed'):
+      # distinct ascending values, all example weights positive, one or two heavy examples
+      domain = []
+      for m in cfg['ms']:
+        vals = tuple(range(m))
+        for heavy in cfg['heavy']:
+          for pos in range(m):
+            w = [1] * m
+            w[pos] = heavy
+            domain.append((vals, tuple(w)))
+            if pos + 2 < m:
+              w2 = list(w)
+              w2[pos + 2] = heavy
+              domain.append((vals, tuple(w2)))
+    else:
+      domain = None
+    for values in (itertools.product(range(cfg['vmax'] + 1), repeat=n) if domain is None else [None]):
+      if domain is not None:
+        break
       if cfg.get('default') is not None and all(v == cfg['default'] for v in values):
         continue     # nothing left after removing the default value
       wlist = [None]
@@ -90,6 +108,17 @@ class KeypointsCase(Case):
                                      cfg.get('clip_max'), cfg.get('default'), weights, kps):
           if not ok:
             bad.setdefault(nm + tag, (values, weights, [float(x) for x in np.asarray(kps).ravel()]))
+    for values, weights in (domain or []):
+      total += 1
+      try:
+        kps = self._call(pl, cfg, values, weights)
+      except Exception as e:  # pylint: disable=broad-except
+        bad.setdefault('returns-without-error (%s)' % type(e).__name__, (values, weights, str(e)[:80]))
+        continue
+      for nm, ok in postconditions(values, cfg['num_keypoints'], cfg['mode'], cfg.get('clip_min'),
+                                   cfg.get('clip_max'), cfg.get('default'), weights, kps):
+        if not ok:
+          bad.setdefault(nm, (values, weights, [float(x) for x in np.asarray(kps).ravel()]))
     c.notes.append('arrays evaluated: %d' % total)
     names = ['returns-without-error', 'finite', 'strictly-increasing', 'accepted-as-input_keypoints',
              'within-clipped-data-range', 'first-is-lower-end', 'last-is-upper-end', 'number-of-keypoints',
@@ -188,6 +217,12 @@ def configs(tier, rng):
                 jobs.append(('keypoints', dict(n=n, vmax=3 if n <= 2 else 2, mode=mode, num_keypoints=nk, clip_min=lo,
                                                clip_max=hi, default=default, weighted=True, wvals=[0, 1, 2],
                                                reduction=red)))
+  # strongly skewed positive example weights (several quantiles fall on the same example)
+  for nk in (4, 5, 6, 8):
+    for red in ('mean', 'sum'):
+      for (lo, hi) in ((None, None), (0.5, None)):
+        jobs.append(('keypoints', dict(n=0, vmax=0, skewed=True, ms=[nk, nk + 1, nk + 3], heavy=[10, 60], mode='quantiles',
+                                       num_keypoints=nk, clip_min=lo, clip_max=hi, default=None, weighted=True, reduction=red)))
   for mode in ('quantiles', 'uniform'):
     for nk in (2, 3):
       for default in (None, -1.0):
